@@ -365,6 +365,12 @@ func (pConn *PFCPConn) handleSessionModificationRequest(msg message.Message) (me
 		return sendError(ErrWriteToDatapath)
 	}
 
+	// The created/updated rules are installed now: remember them even if the
+	// removal part of this request fails below, or they could never be deleted.
+	if err := pConn.store.PutSession(session); err != nil {
+		logger.PfcpLog.Errorf("failed to put PFCP session to store: %v", err)
+	}
+
 	if upf.enableEndMarker {
 		err := upf.SendEndMarkers(&endMarkerList)
 		if err != nil {
